@@ -1,9 +1,75 @@
 (* C03 — A remote transaction becomes visible atomically, exactly when all chunks arrived.
-   Models: Model/SeqRows.v, Model/Partial.v.  Proofs: Proofs/SeqRowsProofs.v. *)
+   Models: Model/SeqRows.v, Model/Partial.v.  Proofs: Proofs/SeqRowsProofs.v, Proofs/PartialProofs.v.
+
+   The ingestion theorems quantify over: a transaction tx (rows (seq, payload) with distinct
+   seqs inside 0..=last) and EVERY finite sequence ops of steps of Model/Partial.v's pstep
+   (the model the harness compares with process_multiple_changes /
+   process_fully_buffered_changes / the clear loop) whose deliveries are well-formed:
+     wf_op last tx (Deliver s e l c)  :=  l = last /\ 0 <= s /\ e <= last /\ c = chunk tx s e
+   (chunk tx s e = the rows of tx with s <= seq <= e), in any order, with any overlap and
+   duplication, interleaved with Empty changesets, apply steps and clear steps.
+     cov ops x      := some delivery in ops has s <= x <= e
+     all_cov last   := every x in 0..=last is covered
+     same_as_tx tx l := l and tx have the same elements
+   ps_db is what has been merged into the replicated tables. *)
 From Coq Require Import List ZArith Bool Lia.
-From Corro Require Import Lib.Ivl Model.Book Model.SeqRows Model.Partial Proofs.BookProofs Proofs.SeqRowsProofs.
+From Corro Require Import Lib.Ivl Model.Book Model.SeqRows Model.Partial Proofs.BookProofs Proofs.SeqRowsProofs Proofs.PartialProofs.
 Import ListNotations.
 Open Scope Z_scope.
+
+(* all or nothing, and nothing before the received chunks cover the whole transaction *)
+Theorem C03_all_or_nothing_only_after_coverage : forall last tx,
+  0 <= last -> (forall r, In r tx -> 0 <= fst r <= last) -> NoDup (map fst tx) ->
+  forall ops, Forall (wf_op last tx) ops ->
+  ps_db (prun ops) = [] \/ (same_as_tx tx (ps_db (prun ops)) /\ all_cov last ops).
+Proof. exact atomic_visibility. Qed.
+Print Assumptions C03_all_or_nothing_only_after_coverage.
+
+(* exactly when: once the received chunks cover the transaction (and no peer answered that the
+   version is empty) it has been merged entirely, or the apply has been triggered and the apply
+   step merges it entirely -- whatever the cut, the order, the overlaps and the duplicates *)
+Theorem C03_coverage_triggers_the_whole_apply : forall last tx,
+  0 <= last -> (forall r, In r tx -> 0 <= fst r <= last) -> NoDup (map fst tx) ->
+  forall ops, Forall (wf_op last tx) ops -> ~ In DeliverEmpty ops -> all_cov last ops ->
+  same_as_tx tx (ps_db (prun ops)) \/
+  (1 <= ps_trig (prun ops) /\ same_as_tx tx (ps_db (fst (pstep (prun ops) ApplyBuffered)))).
+Proof. exact covered_is_applied. Qed.
+Print Assumptions C03_coverage_triggers_the_whole_apply.
+
+(* the same result as the unchunked transaction *)
+Theorem C03_unchunked_reference : forall last tx,
+  (forall r, In r tx -> 0 <= fst r <= last) -> NoDup (map fst tx) ->
+  ps_db (prun [Deliver 0 last last (chunk tx 0 last)]) = tx.
+Proof. exact unchunked_result. Qed.
+Print Assumptions C03_unchunked_reference.
+
+(* applied or discarded => the buffered copies are scheduled for removal and the clear step
+   removes them (or nothing is buffered) *)
+Theorem C03_buffered_copies_removed : forall last tx,
+  0 <= last -> (forall r, In r tx -> 0 <= fst r <= last) -> NoDup (map fst tx) ->
+  forall ops, Forall (wf_op last tx) ops ->
+  let st := prun ops in
+  ps_db st <> [] \/ ps_mem st = None /\ ps_known st = true ->
+  (ps_clear st = true /\ ps_rows (fst (pstep st Clear)) = [] /\ ps_buf (fst (pstep st Clear)) = [])
+  \/ (ps_rows st = [] /\ ps_buf st = []).
+Proof. exact buffered_copies_removed. Qed.
+Print Assumptions C03_buffered_copies_removed.
+
+(* non-vacuity: a 4-change transaction cut in three overlapping chunks delivered out of order
+   with a duplicate: nothing is visible until the last one, which triggers the apply *)
+Example C03_ingestion_nonvacuous :
+  let tx := [(0, 100); (1, 101); (2, 102); (3, 103)] in
+  let d s e := Deliver s e 3 (chunk tx s e) in
+  let ops := [d 2 3; d 2 3; d 1 2] in
+  Forall (wf_op 3 tx) (ops ++ [d 0 1; ApplyBuffered; Clear]) /\
+  ps_db (prun ops) = [] /\ ps_trig (prun ops) = 0 /\
+  ps_db (prun (ops ++ [d 0 1])) = [] /\ ps_trig (prun (ops ++ [d 0 1])) = 1 /\
+  ps_db (prun (ops ++ [d 0 1; ApplyBuffered])) = tx /\
+  ps_buf (prun (ops ++ [d 0 1; ApplyBuffered; Clear])) = [].
+Proof.
+  cbv zeta. split; [|vm_compute; repeat split; reflexivity].
+  repeat constructor; cbn; lia.
+Qed.
 
 (* the WHERE clause of the seq-range DELETE selects exactly the rows that
    overlap or are adjacent to the incoming range *)
